@@ -344,8 +344,8 @@ def process {σ} (snap : Snap) (o : Opts) (preOp : Entry → σ → Outcome Unit
   | (some r, st', w') => (some r, st', w')
   | (none, st', w') =>
     if depth < o.minDepth then (none, st', w')
-    else if e.dir ∧ o.contentsFirst then (none, { st' with deferred := e :: st'.deferred }, w')
     else if (o.files ∧ !e.file) ∨ (!o.files ∧ o.dirs ∧ !e.dir) then (none, st', w')
+    else if e.dir ∧ o.contentsFirst then (none, { st' with deferred := e :: st'.deferred }, w')
     else (some (.ok e), st', w')
 
 /-- the `while !self.iters.is_empty()` loop of `EntriesIter::next` -/
